@@ -32,7 +32,7 @@ def full_universe(n, cables=2):
   return np, cab
 
 
-def static_scenario(n, bits, idx, cables=2, variant=0, seed=0):
+def static_scenario(n, bits, idx, cables=2, variant=0, seed=0, floods="all"):
   """bits: one int per directed wire of the full universe (1 = up)."""
   np, cab = full_universe(n, cables)
   wires = [w for c in cab for w in c]
@@ -51,12 +51,13 @@ def static_scenario(n, bits, idx, cables=2, variant=0, seed=0):
   else:                       # connect, half a cycle, rest of the cycle
     steps += [dict(a="SwitchUp", s=s) for s in order]
     steps += [dict(a="Advance", d=2), dict(a="Advance", d=4)]
-  steps += [dict(a="Flood", s=s, p=np) for s in range(1, n + 1)]
+  src = range(1, n + 1) if floods == "all" else [1 + idx % n]
+  steps += [dict(a="Flood", s=s, p=np) for s in src]
   return dict(n=n, np=np, wires=wires, phys=phys, steps=steps, seed=seed * 31 + idx,
               kind="static%d" % n)
 
 
-def all_static(n, cables=2, seed=0, limit=None, variants=(0, 1, 2), canonical=False):
+def all_static(n, cables=2, seed=0, limit=None, variants=(0, 1, 2), canonical=False, floods="all"):
   """every wiring of the full universe (each directed wire up or down).
   canonical=True keeps one representative per class of wirings that differ
   only by swapping the two parallel cables of a pair (the concretisation
@@ -82,7 +83,8 @@ def all_static(n, cables=2, seed=0, limit=None, variants=(0, 1, 2), canonical=Fa
     if canonical and not is_canon(i):
       continue
     bits = [(i >> k) & 1 for k in range(nw)]
-    out.append(static_scenario(n, bits, i, cables, variant=variants[i % len(variants)], seed=seed))
+    out.append(static_scenario(n, bits, i, cables, variant=variants[i % len(variants)], seed=seed,
+                               floods=floods))
   return out
 
 
